@@ -20,7 +20,7 @@ RULE = ('LISTS: (L1) every labelled list tree over {itemize,enumerate,descriptio
         'every subset of the r+1 row boundaries carrying \\hline x (no \\cline | one \\cline{i-j}, every boundary, every '
         'range that is a union of whole cells of both adjacent rows) x preamble/multicolumn-spec pairs; (T2C) the same layouts x '
         'every boundary x every ordered pair of disjoint aligned \\cline ranges on it x {no, all other} \\hline; (T2V) every span '
-        'layout x every bar subset x every choice of {c,|c,c|,|c|} per multicolumn; (T3) every n x r grid of cell contents '
+        'layout x every bar subset (column types cycle l,c,r so that a shifted column style is visible in text-align) x every choice of {c,|r,l|,|c|} per multicolumn; (T3) every n x r grid of cell contents '
         'from {word, two words, two paragraphs, empty, unbraced \\bfseries, {\\bf ..}, $..$, \\textbf, nested tabular, nested array in $ $, itemize, \\def+use, '
         'use of outer \\def} without all-empty rows, plus multicolumn contents; (T4) row terminator / whitespace / '
         'environment (tabular, tabular[t], tabular*, array in \\[ \\] and $ $) / wrapper (bare, article, list item, center) '
@@ -31,8 +31,8 @@ ASSUMPTIONS = [
     'only full rows (spans sum to the declared column count) and rows with at least one non-empty cell are generated',
     '\\cline ranges are restricted to unions of whole cells of both adjacent rows, so that a per-cell border '
     'representation can express the rule exactly whichever adjacent row carries it',
-    'column alignment (text-align) is not part of the statement and is not compared; borders are read from the '
-    'border-(top|bottom|left|right)* keys of ArrayCell.style',
+    'borders are read from the border-(top|bottom|left|right)* keys of ArrayCell.style; the text-align key of every '
+    'cell is compared with the alignment of its column type (l, c, r, p -> left) or of its \\multicolumn spec',
 ]
 
 LISTS = ('itemize', 'enumerate', 'description', 'trivlist', 'list')
@@ -160,7 +160,7 @@ def observe_table(node):
                     V.add((col, i))
                 elif k.startswith('border-right'):
                     V.add((col + span, i))
-            cells.append((span, segments(cn)))
+            cells.append((span, (cn.style or {}).get('text-align'), segments(cn)))
             col += span
         rows.append(tuple(cells))
         i += 1
@@ -361,7 +361,7 @@ def gen_T2(n, r, maxmc, pair, clines=True):
             yield {'fam': 'table', 'ast': t_ast(cols, bars, rows, rules)}
 
 
-MCSPECS = ['c', '|c', 'c|', '|c|']
+MCSPECS = ['c', '|r', 'l|', '|c|']
 
 
 def gen_T2V(n, r, maxmc):
@@ -576,6 +576,9 @@ def plan(tier):
                         p.append(('T2', (n, r, 2, pair), 4 if n * r >= 4 else 1, {}))
         for n, r in ((2, 1), (2, 2), (3, 1), (3, 2)):
             p.append(('T2V', (n, r, 2), 8 if n * r >= 6 else 2, {}))
+        # a spanning cell followed by >= 2 ordinary cells under a non-uniform preamble needs >= 4 columns
+        p.append(('T2V', (4, 1, 2), 8, {}))
+        p.append(('T2V', (5, 1, 1), 4, {}))
         for n, r in ((2, 1), (2, 2), (3, 1), (3, 2)):
             p.append(('T2C', (n, r, 2, 0), 2, {}))
         p.append(('T3', (1, 1, KINDS_FULL), 1, {}))
@@ -643,7 +646,8 @@ SUMMARY = {
     'quick': ('lists: all labelled trees depth<=3, <=3 items/list, <=3 items in total (article class and blank-line spelling: '
               '<=2 in total); all shapes depth<=3 with <=2 items/list (any size) and with <=3 items/list up to 6 items, 18 '
               'labellings each. tables: preambles of 1-3 columns (types lcrp, lcp for 3 columns); span/rule grids 1-3 x 1-3 '
-              'with <=2 multicolumns (3x3 with all bars: <=1); cline pairs and vertical-bar families up to 3x2; cell '
+              'with <=2 multicolumns (3x3 with all bars: <=1); cline pairs up to 3x2; vertical-bar/alignment family up to 3x2 '
+              'plus 4x1 (<=2 multicolumns) and 5x1 (<=1), all 2^(n+1) bar subsets; cell '
               'contents 1x1..3x1 full menu of 13, 2x2 menu of 6, 3x2 and 2x3 menu of 4'),
     'thorough': ('lists: all labelled trees depth<=4, <=3 items/list, <=4 items in total (article / blank-line spelling: <=3); '
                  'all shapes depth<=4 with <=2 items/list (3 labellings), depth<=3 with <=3 items/list up to 8 items and '
